@@ -3,6 +3,7 @@ and the kernel's per-socket counters from /proc/net/udp."""
 
 import asyncio
 import logging
+import os
 import socket
 import sys
 import warnings
@@ -63,10 +64,22 @@ class EventLog:
         # what a user callback may raise: anything, including exceptions that look like transport errors
         self.exc_types = (CallbackBoom, ConnectionRefusedError, ValueError, TimeoutError, KeyError, RuntimeError, BrokenPipeError, OSError)
         self.deliveries = 0
+        self.consumer_edits = False
 
     def callback(self, device) -> None:
         self.deliveries += 1
-        self.events.append(("device", device))
+        if self.consumer_edits and self.deliveries % 3 == 0 and hasattr(device, "name"):
+            # a consumer that uses what it is given: the log keeps what was delivered, the delivered object itself is renamed
+            import copy
+
+            self.events.append(("device", copy.copy(device)))
+            try:
+                device.name = "renamed by its consumer"
+                device.device_state = None
+            except Exception:
+                pass
+        else:
+            self.events.append(("device", device))
         ev = self.sentinels.get(getattr(device, "device_id", None))
         if ev is not None:
             ev.set()
@@ -109,7 +122,8 @@ class UdpRig:
     # ---- instrumentation of the process-wide channels
     def install(self, loop) -> None:
         logging.getLogger("aioswitcher").addHandler(self._handler)
-        warnings.simplefilter("always")
+        if not os.environ.get("VF_WARNINGS_CONFIGURED_EARLY"):
+            warnings.simplefilter("always")
         if sys.flags.bytes_warning:
             warnings.filterwarnings("error", category=BytesWarning, module=r"aioswitcher(\..*)?$")
         self._old_showwarning = warnings.showwarning
